@@ -74,26 +74,41 @@ Theorem C06_defaults_coincide :
 Proof. exact defaults_coincide. Qed.
 Print Assumptions C06_defaults_coincide.
 
-(* Linear mode, full statement would be: the three agree on EVERY schedule.  It fails for
-   schedules with negative entries (C06_linear_agree_negative_refuted in C06_findings.v: the
-   network side takes |sum_i |A_ji| X_it|, the algorithm side compares the signed sum).
-   Proved: agreement on every non-negative schedule. *)
-Theorem C06_three_agree_linear_partial : forall (n : network RF) (inf : infra RF) (m : mapping RF),
+(* Linear mode: the three agree on EVERY schedule (negative entries included) under equal
+   tolerances: both sides compare |sum_i |A_ji| X_it| with the limit (algorithm side since fix
+   1df0c97; the old witness limit 40 A, x = -50 A is kept in corpus/C06/ and below). *)
+Theorem C06_three_agree_linear : forall (n : network RF) (inf : infra RF) (m : mapping RF),
   infrastructure_info RF n = Ok inf ->
   m <> [] -> uniform_lengths RF m = true ->
   n_vt n = g_utils_default_vt RF -> n_rt n = g_utils_default_rt RF ->
   let T := mapping_T RF m in
   let X := dense RF (n_stations RF n) T m in
-  all_nonneg RF X = true ->
   iface_is_feasible RF n m true None None = Ok (net_is_feasible RF n X T true None None)
   /\ alg_is_feasible_default RF inf X T true = net_is_feasible RF n X T true None None.
 Proof.
-  intros n inf m Hinf Hne Hu Hvt Hrt T X Hnn. split.
+  intros n inf m Hinf Hne Hu Hvt Hrt T X. split.
   - now apply iface_dense.
   - rewrite default_is_explicit, <- Hvt, <- Hrt.
-    exact (alg_net_agree_linear_nonneg n inf X T None None Hinf Hnn).
+    exact (alg_net_agree_linear n inf X T None None Hinf).
 Qed.
-Print Assumptions C06_three_agree_linear_partial.
+Print Assumptions C06_three_agree_linear.
+
+(* ... and for any schedule matrix and any explicit tolerance arguments *)
+Theorem C06_alg_equals_net_linear : forall (n : network RF) (inf : infra RF) X T ovt ort,
+  infrastructure_info RF n = Ok inf ->
+  alg_is_feasible RF inf X T true (opt_or RF ovt (n_vt n)) (opt_or RF ort (n_rt n))
+  = net_is_feasible RF n X T true ovt ort.
+Proof. exact alg_net_agree_linear. Qed.
+Print Assumptions C06_alg_equals_net_linear.
+
+(* regression witness of the fixed finding (Q instance, axiom-free): all three reject x = -50 *)
+Theorem C06_linear_negative_witness_agrees :
+  exists inf, infrastructure_info QF witness_neg_net = Ok inf
+  /\ net_is_feasible QF witness_neg_net [[-50]]%Q 1 true None None = false
+  /\ iface_is_feasible QF witness_neg_net [(O, [-50]%Q)] true None None = Ok false
+  /\ alg_is_feasible_default QF inf [[-50]]%Q 1 true = false.
+Proof. exact witness_neg_agree. Qed.
+Print Assumptions C06_linear_negative_witness_agrees.
 
 (* Interface.is_feasible: {} is feasible; schedules of unequal lengths are rejected with
    InvalidScheduleError; otherwise it is the network check of the dense matrix whose row i is the
